@@ -20,6 +20,7 @@ import (
 	"os/exec"
 	"path/filepath"
 	"reflect"
+	"slices"
 	"sort"
 	"strconv"
 	"strings"
@@ -45,7 +46,7 @@ type Crash struct {
 }
 
 type Action struct {
-	Kind string  `json:"kind"` // batch | forcemerge | sleep | copy | hold | settle | quiesce | release | hold_persister | await_held | release_persister | arm | observe
+	Kind string  `json:"kind"` // batch | forcemerge | sleep | copy | hold | settle | quiesce | release | await_copy | hold_persister | await_held | release_persister | arm | observe
 	Ops  []sw.Op `json:"ops,omitempty"`
 	// hold_persister / await_held / release_persister: where the persister is held.  "" = at the end
 	// of a round (hook point persist_release_waiters); "mem_merge" = after it has picked a root and
@@ -55,6 +56,9 @@ type Action struct {
 	US    int    `json:"us,omitempty"`
 	Dest  string `json:"dest,omitempty"`
 	Gate  bool   `json:"gate,omitempty"` // copy: do not write the first file before a "release" action (or 60 s)
+	// copy with Gate: the gate this copy waits at; release: the gate that is opened ("" = the default
+	// gate); await_copy waits (bounded) until the CopyTo into Dest has returned
+	Name string `json:"name,omitempty"`
 }
 
 type Session struct {
@@ -247,6 +251,230 @@ func memMergeWindow(r *vrand.R, nids, nkeys int, ver *int64) []Action {
 	}
 	as = append(as, Action{Kind: "arm"}, Action{Kind: "release_persister", Point: "mem_merge"})
 	return as
+}
+
+// copyWindow is a scheduled stretch in which online copies sit at a gate (inside the destination's
+// writer, before their first file: the root is pinned, nothing copied yet) while the files of the
+// pinned root are made obsolete, merged away and purged - the sequence is driven by events and
+// scorch's counters, not by the clock:
+//
+//	"mem" (unsafe batches)  the persister is held at the end of a round; nmem batches, each indexing
+//	      ids of its own, leave nmem in-memory segments in the root; a gated copy pins that root;
+//	      one more batch (if quiet: one that adds no segment), so that the pinned root is one the
+//	      persister never writes a snapshot record for (a record would keep its files alive as long
+//	      as the root is pinned), sometimes a second copy; the persister is let go and writes the
+//	      segments down; their documents are overwritten or deleted (all of them unless spare),
+//	      everything is merged, the merged root persisted, the purger run, one more batch and
+//	      round; only then may the copies touch their files.
+//	"two" two gated copies pinned at the same root, or the second a batch later - with unsafe
+//	      batches and nmem > 0 on roots the held persister never writes (as above), otherwise on a
+//	      persisted root at rest; one of them runs to its end; every document of the index is
+//	      overwritten or deleted, merge, persist, purge as above; then the other copy runs.
+//
+// Every copy must succeed, its destination must open and hold the contents of its pinned root, and
+// the model must accept every file removal in between.  All holds and waits are bounded.
+func copyWindow(r *vrand.R, nids int, ver *int64, kind, tag string, unsafe bool, nmem int, spare, quiet bool) []Action {
+	var as []Action
+	batch := func(ops []sw.Op) { as = append(as, Action{Kind: "batch", Ops: ops}) }
+	withIndex := func(ops []sw.Op) []sw.Op { // at least one document is written (so the batch makes a segment)
+		for _, o := range ops {
+			if o.Kind == "index" {
+				return ops
+			}
+		}
+		*ver++
+		return append(ops, sw.Op{Kind: "index", ID: r.Intn(nids), Ver: *ver})
+	}
+	obsolete := func(victims []int) {
+		// 1-2 batches which between them overwrite or delete every victim (but one if spare)
+		vs := append([]int(nil), victims...)
+		vrand.Shuffle(r, vs)
+		if spare && len(vs) > 1 {
+			vs = vs[1:]
+		}
+		cut := len(vs)
+		if len(vs) > 1 && r.Bool() {
+			cut = r.Range(1, len(vs)-1)
+		}
+		for _, part := range [][]int{vs[:cut], vs[cut:]} {
+			var ops []sw.Op
+			for _, id := range part {
+				if r.Chance(2, 3) {
+					*ver++
+					ops = append(ops, sw.Op{Kind: "index", ID: id, Ver: *ver})
+				} else {
+					ops = append(ops, sw.Op{Kind: "delete", ID: id})
+				}
+			}
+			if len(ops) > 0 {
+				batch(ops)
+			}
+		}
+	}
+	mergeAndPurge := func() {
+		as = append(as, Action{Kind: "quiesce"}, Action{Kind: "forcemerge"}, Action{Kind: "quiesce"})
+		batch(genOps(r, nids, ver))
+		as = append(as, Action{Kind: "quiesce"})
+	}
+	gated := func(name string) Action {
+		return Action{Kind: "copy", Dest: name, Gate: true, Name: name, US: vrand.Pick(r, []int{0, 0, 1000, 4000})}
+	}
+	ids := make([]int, nids)
+	for i := range ids {
+		ids[i] = i
+	}
+	vrand.Shuffle(r, ids)
+	indexOf := func(id int) []sw.Op {
+		*ver++
+		return []sw.Op{{Kind: "index", ID: id, Ver: *ver}}
+	}
+	switch kind {
+	case "mem":
+		// (at rest first: the round the persister is then held at the end of is the held batch's)
+		as = append(as, Action{Kind: "quiesce"}, Action{Kind: "hold_persister"})
+		batch(withIndex(genOps(r, nids, ver)))
+		as = append(as, Action{Kind: "await_held"})
+		nmem = min(nmem, nids)
+		var victims []int
+		for sgi := 0; sgi < nmem; sgi++ {
+			mine := []int{ids[sgi]}
+			if nmem+sgi < len(ids) && r.Bool() {
+				mine = append(mine, ids[nmem+sgi])
+			}
+			var ops []sw.Op
+			for _, id := range mine {
+				*ver++
+				ops = append(ops, sw.Op{Kind: "index", ID: id, Ver: *ver})
+			}
+			victims = append(victims, mine...)
+			batch(ops)
+		}
+		noSegment := func() []sw.Op { // a batch that moves the root on without adding a segment
+			var others []int
+			for _, id := range ids {
+				if !slices.Contains(victims, id) {
+					others = append(others, id)
+				}
+			}
+			if len(others) > 0 && r.Bool() {
+				return []sw.Op{{Kind: "delete", ID: vrand.Pick(r, others)}}
+			}
+			return nil
+		}
+		names := []string{tag + "m"}
+		as = append(as, gated(names[0]))
+		if quiet || r.Bool() {
+			batch(noSegment())
+		} else {
+			batch(genOps(r, nids, ver))
+		}
+		if r.Chance(1, 3) {
+			names = append(names, tag+"n")
+			as = append(as, gated(names[1]))
+			batch(noSegment())
+		}
+		as = append(as, Action{Kind: "release_persister"}, Action{Kind: "quiesce"})
+		obsolete(victims)
+		mergeAndPurge()
+		for _, n := range names {
+			as = append(as, Action{Kind: "release", Name: n})
+		}
+		for _, n := range names {
+			as = append(as, Action{Kind: "await_copy", Dest: n})
+		}
+	case "two":
+		held := unsafe && nmem > 0
+		between := func() []sw.Op { return genOps(r, nids, ver) }
+		if held {
+			// the copies' roots hold file segments with live documents (every document is written
+			// anew first; the window's batches up to the copies touch ids of their own) and nmem
+			// in-memory segments, and have no snapshot record of their own
+			nmem = min(nmem, nids-2)
+			var all []sw.Op
+			for _, id := range ids {
+				all = append(all, indexOf(id)...)
+			}
+			batch(all)
+			as = append(as, Action{Kind: "quiesce"}, Action{Kind: "hold_persister"})
+			batch(indexOf(ids[0]))
+			as = append(as, Action{Kind: "await_held"})
+			for j := 1; j <= nmem; j++ {
+				batch(indexOf(ids[j]))
+			}
+			between = func() []sw.Op {
+				if r.Bool() {
+					return indexOf(ids[r.Intn(nmem+1)])
+				}
+				return nil
+			}
+		} else {
+			as = append(as, Action{Kind: "quiesce"})
+		}
+		a, b := tag+"a", tag+"b"
+		as = append(as, gated(a))
+		if r.Bool() {
+			batch(between())
+		}
+		as = append(as, gated(b))
+		if held {
+			batch(between())
+			as = append(as, Action{Kind: "release_persister"})
+		}
+		first, second := a, b
+		if r.Chance(1, 3) {
+			first, second = b, a
+		}
+		as = append(as, Action{Kind: "release", Name: first}, Action{Kind: "await_copy", Dest: first})
+		spare = spare && nids > 2
+		obsolete(ids)
+		mergeAndPurge()
+		as = append(as, Action{Kind: "release", Name: second}, Action{Kind: "await_copy", Dest: second})
+	}
+	return as
+}
+
+// copyWindowCase: some history (file segments, merges), a copy window, a little more history.  The
+// first cases of each kind are the plain ones (one in-memory segment / nothing spared, at most one
+// snapshot kept), the later ones vary the number of in-memory segments, the retention and what is
+// spared.
+func copyWindowCase(r *vrand.R, mode, kind string, plain bool) In {
+	nids := r.Range(3, 6)
+	var ver int64
+	in := In{Mode: mode, NIDs: nids, Layout: sw.Layout{Config: "scorch-disk", Opts: r.Intn(6), Unsafe: true, Keep: r.Range(0, 1)}}
+	nmem, spare := 1, false
+	if !plain {
+		switch r.Intn(4) {
+		case 0:
+			nmem = r.Range(1, 3)
+		case 1:
+			spare = true
+		case 2:
+			in.Layout.Keep = 2
+		}
+		if kind == "two" && r.Chance(1, 3) {
+			nmem = 0 // copies of a persisted root at rest ...
+			in.Layout.Unsafe = r.Bool() // ... also with safe batches
+		}
+	}
+	as := genActions(r, nids, r.Range(1, 5), &ver, []int{0, 200, 2000}, 3)
+	as = append(as, copyWindow(r, nids, &ver, kind, "cw", in.Layout.Unsafe, nmem, spare, plain)...)
+	as = append(as, genActions(r, nids, r.Intn(3), &ver, []int{0, 200}, 4)...)
+	if r.Chance(1, 4) {
+		k2 := kind
+		if r.Bool() && in.Layout.Unsafe {
+			k2 = map[string]string{"mem": "two", "two": "mem"}[kind]
+		}
+		as = append(as, copyWindow(r, nids, &ver, k2, "cx", in.Layout.Unsafe, max(nmem, 1), spare, plain)...)
+	}
+	s := Session{Actions: as}
+	if mode == "c12" {
+		s.Actions = append(s.Actions, Action{Kind: "settle"})
+		s.Sampler, s.FdCheck = true, true
+	} else {
+		s.Actions = append(s.Actions, Action{Kind: "sleep", US: 5000})
+	}
+	in.Sessions = []Session{s, {}}
+	return in
 }
 
 // points at which a crash right after a scheduled window is most telling (the round that persists
@@ -465,6 +693,10 @@ func gen(f vh.Flags, r *vrand.R, emit func(In)) {
 			}
 			emit(in)
 		}
+		// scheduled copy windows (see copyWindow): two of three with two overlapping copies
+		for k, n2 := 0, f.N(6, 300); k < n2; k++ {
+			emit(copyWindowCase(r, mode, []string{"two", "two", "mem"}[k%3], k < 3))
+		}
 	case "c12":
 		n := f.N(18, 400)
 		for k := 0; k < n; k++ {
@@ -487,6 +719,11 @@ func gen(f vh.Flags, r *vrand.R, emit func(In)) {
 			as = append(as, Action{Kind: "settle"})
 			in.Sessions = []Session{{Actions: as, Sampler: true, FdCheck: true}, {}}
 			emit(in)
+		}
+		// scheduled copy windows (see copyWindow): two of three with a copy pinned at a root that
+		// holds in-memory segments
+		for k, n2 := 0, f.N(6, 300); k < n2; k++ {
+			emit(copyWindowCase(r, mode, []string{"mem", "mem", "two"}[k%3], k < 3))
 		}
 	}
 }
@@ -761,8 +998,17 @@ func childMain(specJSON string) {
 		}
 		mu.Unlock()
 	}
-	copyGate := make(chan struct{}) // closed by a "release" action
-	var gateOnce sync.Once
+	// gates[name]: closed by the "release" action of that name (made on first use; only the action
+	// loop touches the map)
+	gates := map[string]chan struct{}{}
+	gateOf := func(name string) chan struct{} {
+		if gates[name] == nil {
+			gates[name] = make(chan struct{})
+		}
+		return gates[name]
+	}
+	gateOpen := map[string]bool{}
+	copyDone := map[string]chan struct{}{} // per destination: closed when its CopyTo has returned
 
 	tg := sw.NewTagger()
 	tg.Seq = spec.TagBase
@@ -810,8 +1056,10 @@ func childMain(specJSON string) {
 			us := a.US
 			var gate <-chan struct{}
 			if a.Gate {
-				gate = copyGate
+				gate = gateOf(a.Name)
 			}
+			done := make(chan struct{})
+			copyDone[a.Dest] = done
 			ci := uint64(nCopies)
 			nCopies++
 			note(sw.Note("copy_begin", ci, uint64(atomic.LoadInt64(&nReturned))))
@@ -822,6 +1070,7 @@ func childMain(specJSON string) {
 					os.Exit(11)
 				}
 				note(sw.Note("copy_done", ci, uint64(atomic.LoadInt64(&nSubmitted))))
+				close(done)
 			}()
 			select {
 			case <-started:
@@ -865,7 +1114,18 @@ func childMain(specJSON string) {
 			// previous actions caused, however long that takes on a loaded machine
 			waitQuiet(30 * time.Second)
 		case "release":
-			gateOnce.Do(func() { close(copyGate) })
+			if !gateOpen[a.Name] {
+				gateOpen[a.Name] = true
+				close(gateOf(a.Name))
+			}
+		case "await_copy":
+			// sequencing aid (no observation): the copy into Dest has run to its end
+			if done := copyDone[a.Dest]; done != nil {
+				select {
+				case <-done:
+				case <-time.After(60 * time.Second):
+				}
+			}
 		case "hold_persister":
 			// the persister stops when it next comes to that place, and waits there
 			if _, ok := heldNow[a.Point]; ok {
@@ -1360,6 +1620,40 @@ func exec_(in In) vh.Result {
 	} else if windows > 0 {
 		hist = append(hist, "window:none")
 	}
+	// did a scheduled copy window come about?  files removed / merges introduced while a gated copy
+	// was pinned
+	cwins := 0
+	for _, s := range in.Sessions {
+		for _, a := range s.Actions {
+			if a.Kind == "copy" && a.Gate && a.Name != "" {
+				cwins++
+			}
+		}
+	}
+	if cwins > 0 {
+		inflight, removed, merged := 0, 0, 0
+		for _, e := range all {
+			switch {
+			case e == nil:
+			case e.Kind == "copy_start":
+				inflight++
+			case e.Kind == "copy_end":
+				inflight--
+			case inflight > 0 && e.Kind == "point" && e.Name == "zap_remove":
+				removed++
+			case inflight > 0 && e.Kind == "merge_finish" && e.FileMerge:
+				merged++
+			}
+		}
+		if removed > 0 && merged > 0 {
+			hist = append(hist, "copywin:merge-and-purge-under-pinned-copy")
+		} else if removed > 0 {
+			// (fully obsoleted segments leave the root at the introduction, without a merge)
+			hist = append(hist, "copywin:purge-under-pinned-copy")
+		} else {
+			hist = append(hist, "copywin:none")
+		}
+	}
 	sort.Strings(hist)
 	nontrivial := false
 	switch in.Mode {
@@ -1630,8 +1924,8 @@ func lastLines(s string, n int) string {
 var rules = map[string]string{
 	"c03": "three-session runs on a disk-backed scorch index (5-6 persister/merge option variants, safe and unsafe batches, retention 1-3 or default): session 1 = 4-12 tagged batches with forced merges, killed (os.Exit in a child process) at the n-th occurrence of one of 22 hook points (every point used in every quick run; n = 1, 2-4 or 3-12), optionally followed by damaging every segment file no committed snapshot names; session 2 = reopen, observe, 2-6 more batches, crash again or close; session 3 = reopen, observe. Scheduled family (unsafe batches, batches also set/delete two internal keys): the persister is held (bounded) at the end of a round while 2-3 batches build in-memory segments, then at the merge_start of their in-memory merge while 1-3 batches delete/overwrite documents of the picked segments, released with the crash counter armed, killed at the m-th (1-3) occurrence of a hook point from there on; the reopened session may contain another window; reopens also report every internal key. Plus sessions killed by SIGKILL at wall-clock instants (judged by the statement). Non-trivial: a crash really happened and at least two snapshots had been committed",
 	"c13": "session 1 = 5-12 spaced (or 13-20 unsafe, bursty; every fourth case with a scheduled in-memory-merge window) tagged batches that also set/delete three internal keys, forced merges, numSnapshotsToKeep 1/2/3/5 (unsafe 2/3/5/8), a third with rollbackSamplingInterval 2-25 ms and a retention factor; settle, clean close; RollbackPoints is listed: epoch and GetInternal of every key for EVERY point go to the model; now and then a batch is undone by the next one (also at the very end of the history), so that the newest segment files belong to older points only; for each point (up to 6) a copy of the index is rolled back to it, opened, its documents and internal values reported, one more batch written to it and the documents reported again (the model, rolled back to that record, must accept that write - fresh segment id - and show the same contents); Rollback applied to one point (chosen by seed); session 2 = reopen, observe documents and internal values (must equal the state of that point), write 1-4 batches, close; session 3 = reopen, observe. Non-trivial: at least three snapshots were committed before the rollback",
-	"c14": "6-16 tagged batches with forced merges and pauses; 1-3 CopyTo calls start at random positions and run concurrently with the rest of the workload (persists, merges, purges); every destination is then opened as an index and its contents reported. Non-trivial: a merge or purge happened during the run",
-	"c12": "8-24 tagged batches (safe/unsafe, retention 0-3) with forced merges, held readers and an online copy; a sampler lists the segment files every 1.5 ms (begin/end markers), the directory is listed at quiescence together with the retained snapshot epochs, and /proc/self/fd is checked after Close. Non-trivial: at least one segment file was removed and three listings were taken",
+	"c14": "6-16 tagged batches with forced merges and pauses; 1-3 CopyTo calls start at random positions and run concurrently with the rest of the workload (persists, merges, purges); every destination is then opened as an index and its contents reported. Non-trivial: a merge or purge happened during the run. Scheduled copy windows (6 per quick run): gated copies pinned at roots the held persister never writes a record for (a root with in-memory segments / two copies at the same or neighbouring roots, one of which completes first) are held across the persist of those segments, batches obsoleting the pinned files, a forced merge and purge rounds sequenced by scorch's counters; then they run: CopyTo must succeed and each destination equal its pinned root",
+	"c12": "8-24 tagged batches (safe/unsafe, retention 0-3) with forced merges, held readers and an online copy; a sampler lists the segment files every 1.5 ms (begin/end markers), the directory is listed at quiescence together with the retained snapshot epochs, and /proc/self/fd is checked after Close. Non-trivial: at least one segment file was removed and three listings were taken. Scheduled copy windows (6 per quick run): gated copies pinned at roots the held persister never writes a record for (a root with in-memory segments / two copies at the same or neighbouring roots, one of which completes first) are held across the persist of those segments, batches obsoleting the pinned files, a forced merge and purge rounds sequenced by scorch's counters; then they run: CopyTo must succeed and each destination equal its pinned root",
 }
 
 func main() {
